@@ -301,7 +301,7 @@ func oneConn(w *mon.W, c *mon.Case, get func(ecfg) *engine, loopback bool) {
 		path := fmt.Sprintf("/ok/%d/%d", c.I, i)
 		oc := "ok"
 		pick := r.Intn(14)
-		if cf.stream && !loopback && pick >= 1 && pick <= 5 {
+		if cf.stream && !loopback && (pick >= 1 && pick <= 5 || pick == 9) {
 			// (streamed bodies: the histories stay with the outcomes whose course does not
 			// depend on the body mode — ok, panic, close, post-body)
 			pick = 7
@@ -325,6 +325,20 @@ func oneConn(w *mon.W, c *mon.Case, get func(ecfg) *engine, loopback bool) {
 			oc = "too-large"
 			fmt.Fprintf(&wbuf, "POST %s HTTP/1.1\r\nHost: x\r\nContent-Length: 12000\r\n\r\n%s", path, strings.Repeat("b", 12000))
 			handled = append(handled, "REJECT:"+path)
+			outcomes = append(outcomes, oc)
+			stop = true
+			continue
+		case 9:
+			// the head is complete and well-formed, the body cannot be read (a chunked body
+			// above the limit, a malformed chunk size): the exchange is rejected, and the
+			// Finish that closes it still carries the request whose head was read
+			oc = r.Str("too-large-chunked", "bad-chunk-size")
+			if oc == "too-large-chunked" {
+				fmt.Fprintf(&wbuf, "POST %s HTTP/1.1\r\nHost: x\r\nTransfer-Encoding: chunked\r\n\r\n2ee0\r\n%s\r\n0\r\n\r\n", path, strings.Repeat("b", 12000))
+			} else {
+				fmt.Fprintf(&wbuf, "POST %s HTTP/1.1\r\nHost: x\r\nTransfer-Encoding: chunked\r\n\r\nzz\r\nabc\r\n0\r\n\r\n", path)
+			}
+			handled = append(handled, "REJECT:HEADOK:"+path)
 			outcomes = append(outcomes, oc)
 			stop = true
 			continue
@@ -540,6 +554,11 @@ func oneConn(w *mon.W, c *mon.Case, get func(ecfg) *engine, loopback bool) {
 	for _, h := range handled {
 		rej := strings.HasPrefix(h, "REJECT:")
 		p := strings.TrimPrefix(h, "REJECT:")
+		if strings.HasPrefix(p, "HEADOK:") {
+			// rejected after its head had been read: the Finish must name it
+			p = strings.TrimPrefix(p, "HEADOK:")
+			rej = false
+		}
 		found := false
 		for k := j; k < len(fins); k++ {
 			if fins[k].path == p {
